@@ -61,6 +61,63 @@ ASSOC = "evo.core.sync.associate_trajectories"
 KEY_F2 = "C05.8:matching_time_indices:no-uniqueness-mechanism"
 
 
+def _shortcut(ctx, cfgname, e, ids_all: T, search: T, b: dict, mt_ev):
+    """an index list that does not come from the search: accepted only as
+    the identity pairing 0..n-1 under a condition that makes the search
+    return exactly that — the (offset-shifted) stamp arrays are *equal*,
+    strictly increasing, and max_diff is not negative. Equality up to a
+    tolerance (allclose) is not the nearest counterpart within max_diff."""
+    conds = []
+    t = ids_all
+    while t.op == "ite":
+        if any(x is search for x in t.args[2].walk()) or t.args[2] is search:
+            conds.append((t.args[0], t.args[1]))
+            t = t.args[2]
+        elif t.args[1] is search or any(x is search
+                                        for x in t.args[1].walk()):
+            conds.append((T("not", t.args[0]), t.args[2]))
+            t = t.args[1]
+        else:
+            break
+    for cond, alt in conds:
+        ident = is_call_to(alt, "builtins.list") and alt.args[1] and \
+            is_call_to(alt.args[1][0], "builtins.range") or \
+            is_call_to(alt, "numpy.arange", "builtins.range")
+        ats = tm.atoms(cond)
+        approx = [a for a in ats if any(
+            is_call_to(x, "numpy.allclose", "numpy.isclose", "math.isclose",
+                       "numpy.testing.assert_allclose") for x in a.walk())]
+        exact = [a for a in ats if is_call_to(a, "numpy.array_equal") or (
+            is_call_to(a, ".all", "numpy.all") and any(
+                x.op == "cmp" and x.args[0] == "Eq" for x in a.walk()))]
+        incr = [a for a in ats if is_call_to(a, "numpy.all", ".all") and any(
+            x.op == "cmp" and x.args[0] in ("Gt", "Lt") and any(
+                is_call_to(y, "numpy.diff") for y in x.walk())
+            for x in a.walk())]
+        nonneg = [a for a in ats if a.op == "cmp" and a.args[0] in (
+            "GtE", "LtE", "Gt", "Lt") and any(
+            x is tm.param("max_diff") for x in a.walk())]
+        site = e
+        if approx:
+            ctx.ob("C05.5", site, False,
+                   f"[{cfgname}] the search is bypassed when the stamps are "
+                   f"equal *up to a tolerance* ({fmt(approx[0])[:80]}): "
+                   f"poses are then paired index by index although their "
+                   f"stamps can differ by more than max_diff (or have a "
+                   f"nearer counterpart)", key=f"C05.5:{cfgname}:shortcut")
+        elif ident and exact and incr and nonneg and \
+                tm.fold(cond, lambda a: False if a in exact else None) \
+                is False:
+            ctx.ob("C05.5", site, True,
+                   f"[{cfgname}] identity pairing only for exactly equal, "
+                   f"strictly increasing stamps and max_diff >= 0 (what the "
+                   f"search returns then)", key=f"C05.5:{cfgname}:shortcut")
+        else:
+            ctx.undecidable("C05.5", site, f"[{cfgname}] index lists that "
+                            f"bypass the search under {fmt(cond)[:100]} "
+                            f"(unknown idiom)")
+
+
 def check(ctx):
     prog = ctx.prog
     fm, fa = prog.func(MTI), prog.func(ASSOC)
@@ -297,13 +354,29 @@ def check(ctx):
             # argument k
             ids = (e.data["bound"] or {}).get("ids")
             k = None
+            ids_all = ids
+            if ids is not None and ids.op == "ite":
+                # a shortcut next to the search (identical stamps ...): the
+                # search alternative is judged here, the shortcut below
+                srch = [a for a in tm.strip_ite(ids) if a.op == "sub" and
+                        a.args[0] is mt[0].data["result"]]
+                if len(srch) == 1:
+                    ids = srch[0]
+                    _shortcut(ctx, cfgname, e, ids_all, ids, b, mt[0])
             if ids is not None and ids.op == "sub" and \
                     ids.args[0] is mt[0].data["result"] and \
                     tm.is_const(ids.args[1]):
                 k = ids.args[1].args[1]
             stamps_arg = [b.get("stamps_1"), b.get("stamps_2")]
-            ok = k in (0, 1) and stamps_arg[k] is tm.attr(e.data["recv"],
-                                                          "timestamps")
+
+            def same_values(t: T) -> T:
+                # a deep / shallow copy of a trajectory has its stamps
+                return t.map(lambda x: x.args[1][0] if is_call_to(
+                    x, "copy.deepcopy", "copy.copy") and len(x.args[1]) == 1
+                    else None)
+            ok = k in (0, 1) and stamps_arg[k] is not None and \
+                same_values(stamps_arg[k]) is same_values(
+                    tm.attr(e.data["recv"], "timestamps"))
             ctx.ob("C05.3", e, ok,
                    f"[{cfgname}] index list {k} is applied to the trajectory "
                    f"whose timestamps were argument {k}" if ok else
